@@ -221,7 +221,22 @@ func (obj *SparseInt64Vector) Slice(i, j int) Vector {
   return obj.SLICE(i, j)
 }
 func (obj *SparseInt64Vector) Swap(i, j int) {
-  obj.values[i], obj.values[j] = obj.values[j], obj.values[i]
+  vi, oki := obj.values[i]
+  vj, okj := obj.values[j]
+  if oki {
+    obj.values[j] = vi
+    obj.indexInsert(j)
+  } else {
+    delete(obj.values, j)
+    obj.indexDelete(j)
+  }
+  if okj {
+    obj.values[i] = vj
+    obj.indexInsert(i)
+  } else {
+    delete(obj.values, i)
+    obj.indexDelete(i)
+  }
 }
 func (obj *SparseInt64Vector) AppendScalar(scalars ...Scalar) Vector {
   r := obj.Clone()
